@@ -206,6 +206,58 @@ def run_make1dGrid(n):
     return run
 
 
+def make_negation_run(which):
+    """psi -> -psi: the radial grid function of the negated problem (bounds and end gradients
+    negated) takes the SAME branch and, where the branch is closed-form, is the negated function
+    (C16: only the sign of psi changes)."""
+
+    def run(ctx):
+        from hypnotoad.core import equilibrium as E
+
+        n, lo, up = ctx.real("n"), ctx.real("lower"), ctx.real("upper")
+        gl, gu = ctx.real("grad_lower"), ctx.real("grad_upper")
+        ctx.assume(And(n >= 1, lo != up))
+        kw = {}
+        if which in ("lower", "both"):
+            kw["grad_lower"] = gl
+            ctx.assume((up - lo) * gl > 0)
+        if which in ("upper", "both"):
+            kw["grad_upper"] = gu
+            ctx.assume((up - lo) * gu > 0)
+        used = []
+
+        class Root(Exception):
+            pass
+
+        def brentq_stub(f, a, b, **k):
+            used.append("brentq")
+            raise Root()
+
+        def sici_stub(x):
+            used.append("sici")
+            raise Root()
+
+        eq = object.__new__(E.Equilibrium)
+        erf = lambda x: x.erf() if isinstance(x, Sym) else E.erf(x)
+        outs = []
+        with patched((E, "brentq", brentq_stub), (E, "erf", erf), (E, "sici", sici_stub)):
+            for sgn in (1, -1):
+                del used[:]
+                try:
+                    f = E.Equilibrium.getSmoothMonotonicGridFunc(eq, n, sgn * lo, sgn * up, **{k: sgn * v for k, v in kw.items()})
+                    i = ctx.real("i")
+                    outs.append(("closed", f(i)))
+                except Root:
+                    outs.append((used[-1], None))
+        with spec_mode():
+            ctx.oblige(TRUE(outs[0][0] == outs[1][0]), "the negated problem takes the same branch (%s)" % outs[0][0])
+            if outs[0][0] == "closed" and outs[1][0] == "closed":
+                ctx.oblige(outs[0][1] + outs[1][1] == 0, "closed-form branch: f_{-lower,-upper,-grad}(i) = -f(i)")
+        return outs
+
+    return run
+
+
 def mono_raise_ok(path):
     return isinstance(path.exc, ValueError) and "not monotonic" in str(path.exc)
 
@@ -305,6 +357,7 @@ def build(S):
             S.contract("gridfunc[%s]" % which, FN, make_run(which), expected_exceptions=(ValueError,), shape="scalar, n real>=1", feas_timeout_ms=3000)
         for which in ("none", "lower", "upper", "both"):
             S.contract("gridfunc-doubling[%s]" % which, FN, run_doubling(which), shape="scalar", feas_timeout_ms=3000)
+        add_negation(S)
         for n in (1, 2, 3):
             S.contract("make1dGrid[n=%d]" % n, FN_1D, run_make1dGrid(n), expected_exceptions=(ValueError,), raises_ok=mono_raise_ok, shape="n=%d" % n)
         for topo in ("lsn", "usn", "cdn", "cdn_unbalanced", "cdn_upper_primary", "ldn", "udn"):
@@ -315,6 +368,11 @@ def build(S):
         # requested radial limits: psinorm_* / psi_* -> psi_core, psi_sol, psi_sol_inner, psi_pf_lower/upper
         S.under_contract(C19.FN_MR)
         S.contract("makeRegions[radial limits]", C19.FN_MR, C19.make_regions_run(1), expected_exceptions=(), shape="one X-point, symbolic psinorm options")
+
+
+def add_negation(S):
+    for which in ("none", "lower", "upper", "both"):
+        S.contract("gridfunc-negation[%s]" % which, FN, make_negation_run(which), expected_exceptions=(ValueError,), shape="scalar, n real>=1", feas_timeout_ms=3000)
 
 
 def post(S):
